@@ -6,7 +6,7 @@ from . import loops
 from .. import grammar
 from ..grammar import fmt_path
 from ..absint import *
-from ..interp import Interp
+from ..interp import Interp, stable
 from .amf0 import is_io_plumbing
 
 SPEC = os.path.join(os.path.dirname(os.path.dirname(os.path.dirname(os.path.abspath(__file__)))), "spec", "rtmp_chunk.json")
@@ -549,6 +549,39 @@ def timestamp_semantics(m, rep, rule):
             else:
                 if not (v and "AddW" in v and "current_header.timestamp.value" in v):
                     rbad.append("format %s sets the timestamp to %s (expected previous timestamp + delta)" % (m.variants[vi], v))
+    # the extended timestamp: format 0 sets the timestamp to the value read; the first chunk of a delta-encoded message adds what the
+    # 24-bit field (0xFFFFFF, already added) left out; a continuation chunk, which merely repeats the field, leaves the timestamp alone
+    ebad, ne = [], 0
+    for (vi, s), paths in m.r_paths.items():
+        for sp in paths:
+            reads_ = [t[1] for t in sp if t[0] == "read"]
+            if reads_[:1] != ["u32be"] or not any(t[0] == "when" and "timestamp_field" in t[1] for t in sp):
+                continue
+            fin = [t for t in sp if t[0] == "final"]
+            if not fin:
+                continue
+            d = dict(fin[-1][1])
+            v = d.get("current_header.timestamp.value") or d.get("current_header.timestamp")
+            ne += 1
+            if vi == 0:
+                if v != "#1":
+                    ebad.append("format %s with an extended timestamp sets the timestamp to %s (expected the 32-bit value read)" % (m.variants[vi], v))
+                continue
+            cond = [t for t in sp if t[0] == "when" and "current_payload_data.len" in t[1]]
+            held = interval_from_decisions(cond, "current_payload_data.len") if cond else None
+            if held == (0, 0):
+                if not (v and "AddW" in v and "current_header.timestamp.value" in v and "#1" in v and re.search(r"SubW? 16777215|AddW? 4278190081", v)):
+                    ebad.append("the first chunk of a %s message with an extended timestamp sets the timestamp to %s (expected previous timestamp + (value read - 0xFFFFFF), "
+                                "the 24-bit field having been added already)" % (m.variants[vi], v))
+            elif held is not None and held[0] >= 1:
+                if v is not None:
+                    ebad.append("a continuation chunk of a %s message changes the timestamp to %s when it repeats the extended timestamp" % (m.variants[vi], v))
+            else:
+                if v is not None:
+                    ebad.append("format %s: the timestamp becomes %s on a path that does not decide whether this is the first chunk of the message (a continuation chunk repeats the "
+                                "extended field of the first chunk - for a delta-encoded message that is the delta, not the time - and must leave the timestamp alone)" % (m.variants[vi], v))
+    rep.check(rule, "reader:ext-timestamp-semantics", not ebad and ne >= 4, "extended timestamp: format 0 sets, the first chunk of a delta-encoded message adds the remainder, continuation chunks leave the timestamp alone (%d stage paths)" % ne,
+              "; ".join(sorted(set(ebad))[:3]) or "extended-timestamp stage paths not found", m.b["get_next"].span)
     rep.check(rule, "reader:timestamp-semantics", not rbad and nr >= 3, "the reader sets the timestamp on format 0 and adds the delta otherwise (%d stage paths)" % nr,
               "; ".join(rbad[:3]) or "timestamp stage paths not found", m.b["get_next"].span)
 
@@ -563,3 +596,114 @@ def timestamp_semantics_reader_only(m, rep, rule):
             if key.startswith("reader:"):
                 self.rep.check(r, key, cond, ok, bad, span)
     timestamp_semantics(m, _R(rep), rule)
+
+
+def payload_stage(m):
+    """the stage function of the reader that moves payload bytes"""
+    prog = m.prog
+    for s, ck in m.stage_fn.items():
+        nm = prog.bodies[ck].pretty.split("::")[-1]
+        if any(nm == name and any(any("bytes(" in k for k in m._kinds(sh[0])) for sh in shapes) for name, shapes in m.r_layout[0]):
+            return prog.bodies[ck]
+    return None
+
+
+def _field_index(prog, pretty, name):
+    for k, a in prog.adts.items():
+        if a["pretty"] == pretty:
+            for i, f in enumerate(a["variants"][0]["fields"]):
+                if f["name"] == name:
+                    return i
+    return None
+
+
+def payload_take(m, rep, rule):
+    """A chunk carries min(what is still missing of its message, chunk size) payload bytes (RTMP 1.0 section 5.3.1: every chunk but the
+    last has exactly the chunk size).  Decided at every call of the payload stage that takes bytes out of the input buffer, in the
+    state of the path that reaches it: amount <= message length - bytes already held;  amount <= max chunk size;
+    amount >= min(of the two).  The first clause is what keeps messages apart when the chunk size grows between two chunks of one
+    message (a SetChunkSize on chunk stream 2 interleaved with a long message on another chunk stream)."""
+    prog, env = m.prog, m.env
+    DES, HDR = "chunk_io::deserializer::ChunkDeserializer", "chunk_io::chunk_header::ChunkHeader"
+    hi, pi, bi_, mi = (_field_index(prog, DES, n) for n in ("current_header", "current_payload_data", "buffer", "max_chunk_size"))
+    mli = _field_index(prog, HDR, "message_length")
+    pay = payload_stage(m)
+    if None in (hi, pi, bi_, mi, mli) or pay is None:
+        rep.anchor_missing(rule, "payload stage of the deserializer and its fields current_header.message_length / current_payload_data / buffer / max_chunk_size")
+        return
+    rep.fn(pay.key)
+    TAKERS = ("bytes::bytes_mut::BytesMut::split_to", "bytes::buf::buf_impl::Buf::advance", "alloc::vec::Vec::drain", "bytes::bytes_mut::BytesMut::split_off")
+
+    def cprobe(ex, it, S, t, args):
+        if callee_name(t) not in TAKERS or not args:
+            return None
+        tgt = it.target(args[0])
+        if not tgt or not tgt[1] or tgt[1][-1][0] != "f" or tgt[1][-1][2] != "buffer":
+            return None
+        if callee_name(t) in ("alloc::vec::Vec::drain", "bytes::bytes_mut::BytesMut::split_off"):
+            return ("unmodelled", callee_name(t))
+        oit = ex.outer.it
+        selfv = State().read((oit.L(1), ()))
+        sroot = ("P", selfv)
+        amount = args[1]
+        ml = S.read((sroot, (("f", hi, "current_header"), ("f", mli, "message_length"))))
+        held = S.read((sroot, (("f", pi, "current_payload_data"), ("len",))))
+        mx = S.read((sroot, (("f", mi, "max_chunk_size"),)))
+        set_ty(held, "usize")
+        mlc = ml if sv_type(ml) == "usize" else ("cast", "usize", ml)
+        mxc = mx if sv_type(mx) in ("usize", None) else ("cast", "usize", mx)
+        cands_missing = [("bin", "Sub", "usize", mlc, held)]
+        for sv in list(S.doms.keys()) + [k[0] for k in S.zone.keys()] + [k[1] for k in S.zone.keys()]:
+            # the program's own "missing" term, however it was typed
+            if isinstance(sv, tuple) and sv[0] == "bin" and sv[1] == "Sub" and sv[4] == held and S.prove_eq(sv[3], mlc) and sv not in cands_missing:
+                cands_missing.append(sv)
+        le_missing = any(S.prove_le(amount, r, 0) for r in cands_missing)
+        le_max = bool(S.prove_le(amount, mxc, 0) or S.prove_le(amount, mx, 0))
+        ge_min = any(S.prove_le(("min", "usize", r, x), amount, 0) or S.prove_le(("min", "usize", x, r), amount, 0) or S.prove_le(r, amount, 0) or S.prove_le(x, amount, 0)
+                     for r in cands_missing for x in (mxc, mx))
+        return ("take", stable(amount), le_missing, le_max, ge_min)
+    ex = grammar.Extractor(env, pay.key, "r")
+    ex.all_local_calls = True
+    ex.track_takes = True
+    ex.track_stores = True
+    ex.track_ext = True
+    ex.inline = True
+    units = grammar.named_units(prog)
+    ex.inline_pred = lambda cb, t: cb.pretty.split("::")[-1] not in units
+    ex.call_probe = cprobe
+    ex.run()
+    if ex.truncated:
+        rep.cannot_analyse(rule, pay.pretty, "too many paths in %s" % pay.pretty, pay.span)
+        return
+    seen = {}
+    for p in ex.paths:
+        if not p or p[-1][0] != "end" or p[-1][1] == "err":
+            continue
+        rets = [t for t in p if t[0] == "returns"]
+        if not rets or "Success" not in rets[-1][1]:
+            continue
+        for t in p:
+            if t[0] == "cprobe" and t[1][0] == "unmodelled":
+                seen[("unmodelled", t[1][1])] = None
+            if t[0] == "cprobe" and t[1][0] == "take":
+                key = t[1][1:]
+                seen.setdefault(key, " ".join(grammar.fmt_tok(x) for x in p if x[0] == "when")[:300])
+    n = 0
+    for key, conds in sorted(seen.items(), key=lambda kv: str(kv[0])):
+        if key[0] == "unmodelled":
+            rep.cannot_analyse(rule, "payload-take:" + key[1], "the payload stage takes bytes from the input buffer with %s, which this rule does not model" % key[1], pay.span)
+            continue
+        amount, le_missing, le_max, ge_min = key
+        n += 1
+        what = []
+        if not le_missing:
+            what.append("may exceed what is still missing of the message (announced length - bytes already held): bytes of the next chunk are appended to this message "
+                        "when the chunk size was raised between two chunks of the message")
+        if not le_max:
+            what.append("may exceed the chunk size")
+        if not ge_min:
+            what.append("may be smaller than min(missing bytes, chunk size), the payload size of a conformant chunk")
+        rep.check(rule, "payload-take|le-missing=%s|le-max=%s|ge-min=%s" % (le_missing, le_max, ge_min), le_missing and le_max and ge_min,
+                  "the payload stage takes %s bytes = min(missing bytes of the message, chunk size)" % amount[:120],
+                  "the payload stage takes %s bytes on the path [%s], which %s" % (amount[:160], conds, "; ".join(what)), pay.span)
+    rep.floor(rule, "distinct payload takes on Success paths of the payload stage", n, 1)
